@@ -1371,20 +1371,12 @@ func (e *Entry) Find(name string) *Entry {
 			switch part {
 			case "input":
 				if e.RPC.Input == nil {
-					e.RPC.Input = &Entry{
-						Name: "input",
-						Kind: InputEntry,
-						Dir:  make(map[string]*Entry),
-					}
+					e.RPC.Input = e.newRPCChild("input", InputEntry)
 				}
 				e = e.RPC.Input
 			case "output":
 				if e.RPC.Output == nil {
-					e.RPC.Output = &Entry{
-						Name: "output",
-						Kind: OutputEntry,
-						Dir:  make(map[string]*Entry),
-					}
+					e.RPC.Output = e.newRPCChild("output", OutputEntry)
 				}
 				e = e.RPC.Output
 			}
@@ -1400,6 +1392,21 @@ func (e *Entry) Find(name string) *Entry {
 		}
 	}
 	return e
+}
+
+// newRPCChild returns an empty input or output Entry for the rpc or action e.
+// It is used when the schema has no input or output statement for e, in which
+// case the returned Entry refers to the Node of e.
+func (e *Entry) newRPCChild(name string, kind EntryKind) *Entry {
+	return &Entry{
+		Parent: e,
+		Node:   e.Node,
+		Name:   name,
+		Kind:   kind,
+		Prefix: e.Prefix,
+		Dir:    make(map[string]*Entry),
+		Extra:  map[string][]interface{}{},
+	}
 }
 
 // Path returns the path to e. A nil Entry returns "".
